@@ -1,5 +1,6 @@
 import ERP.Lemmas.Ctrl
 import ERP.Properties.C03
+import ERP.Lemmas.GenConsts
 /-! # C14 — @-commands switch exclusion off and on correctly -/
 namespace ERP.C14
 open ERP T Spec
